@@ -273,7 +273,7 @@ func replayC17Eval(env *core.Env, a []json.RawMessage) {
 }
 
 // compile-option kinds
-var c17CompKinds = []string{"fn-good", "fn-typed", "fn-bad-first", "fn-bad-results", "fn-variadic", "fn-zero-arg", "fn-builtin-name", "fn-dup-name", "not-a-func", "experimental", "permissive", "fn-bad-errtype", "fn-bad-3results", "fn-bad-first-ptr", "fn-bad-result-type"}
+var c17CompKinds = []string{"fn-good", "fn-typed", "fn-bad-first", "fn-bad-results", "fn-variadic", "fn-zero-arg", "fn-builtin-name", "fn-dup-name", "not-a-func", "experimental", "permissive", "fn-bad-errtype", "fn-bad-3results", "fn-bad-first-ptr", "fn-bad-result-type", "fn-any-param", "fn-iface-param"}
 
 // c17Err is a concrete error type: a function returning it instead of the `error` interface has a bad signature.
 type c17Err struct{}
@@ -300,6 +300,14 @@ func c17CompOpt(kind string, p *c17Probe) (fhirpath.CompileOption, bool) {
 		return compopts.AddFunction("good", p.f1), false // fails only when "good" is registered twice
 	case "not-a-func":
 		return compopts.AddFunction("nf", 42), true
+	case "fn-any-param":
+		// parameters of interface type are parameters like any other (the argument must implement them)
+		return compopts.AddFunction("anyp", func(in system.Collection, a any) (system.Collection, error) { p.calls++; return in, nil }), false
+	case "fn-iface-param":
+		return compopts.AddFunction("ifacep", func(in system.Collection, a interface{ GetValue() string }) (system.Collection, error) {
+			p.calls++
+			return system.Collection{system.String(a.GetValue())}, nil
+		}), false
 	case "fn-bad-errtype":
 		return compopts.AddFunction("baderr", func(in system.Collection) (system.Collection, *c17Err) { p.calls++; return in, nil }), true
 	case "fn-bad-3results":
@@ -335,7 +343,7 @@ func c17CompList(env *core.Env, kinds []string) {
 			goods++
 		}
 	}
-	if goods > 1 || has["fn-typed"] > 1 || has["fn-variadic"] > 1 {
+	if goods > 1 || has["fn-typed"] > 1 || has["fn-variadic"] > 1 || has["fn-any-param"] > 1 || has["fn-iface-param"] > 1 {
 		failing = true // the same custom name registered twice
 	}
 	list := strings.Join(kinds, ",")
@@ -391,6 +399,21 @@ func c17CompList(env *core.Env, kinds []string) {
 	if goods >= 1 && p.calls != 1 {
 		env.Violatef("C17/custom/call-count", "compile options [%s], `%s`: custom function called %d times (expected 1)", list, src, p.calls)
 	}
+	// functions with interface-typed parameters are callable
+	if has["fn-any-param"] == 1 {
+		before := p.calls
+		ra := fx.Eval(env, "Patient.name.anyp(1).count() + Patient.name.anyp('x').count()", in, co, nil)
+		if it, ok := ra.Single(); !ok || it.T != "4" || p.calls != before+2 {
+			env.Violatef("C17/custom/interface-parameter", "compile options [%s]: a function with an `any` parameter: `…anyp(1).count() + …anyp('x').count()` => %s after %d call(s) (expected 4 after 2)", list, trunc(ra.Short(), 100), p.calls-before)
+		}
+	}
+	if has["fn-iface-param"] == 1 {
+		ra := fx.Eval(env, "Patient.ifacep(name.first().family)", in, co, nil)
+		rb := fx.Eval(env, "Patient.name.first().family.toString()", in, co, nil)
+		if !ra.IsValue() || !fx.Same(ra, rb) {
+			env.Violatef("C17/custom/interface-parameter", "compile options [%s]: a function with an interface{GetValue() string} parameter called with a FHIR string => %s (expected %s)", list, trunc(ra.Short(), 100), trunc(rb.Short(), 60))
+		}
+	}
 	// built-in `join` resolves only with WithExperimentalFuncs
 	_, jr := fx.Compile(env, "Patient.name.given.join(',')", co...)
 	if (jr.Kind != "cerror") != (has["experimental"] > 0) {
@@ -445,6 +468,34 @@ func c17Contract(env *core.Env) {
 			env.Violatef(fx.PanicSig("C17", rr), "`%s` => %s", src, rr.Short())
 		} else if rr.Kind != "error" {
 			env.Violatef("C17/unknown-variable/not-an-evaluation-error", "`%s` must be an evaluation error, observed %s", src, trunc(rr.Short(), 100))
+		}
+	}
+	// an option is a value: the same option object is good for any number of evaluations, also after an evaluation in
+	// which it collided with another option
+	{
+		optA := evalopts.EnvVariable("a", system.Integer(5))
+		optCtx := evalopts.EnvVariable("context", system.Integer(1))
+		optBad := evalopts.EnvVariable("bad", 42)
+		exA, _ := fx.Compile(env, "%a + 1")
+		if exA != nil {
+			for round := 0; round < 3; round++ {
+				env.Cover("option-object-reused")
+				if r := fx.Evaluate(env, exA, in, optA); !r.IsValue() || len(r.Items) != 1 || r.Items[0].T != "6" {
+					env.Violatef("C17/evalopts/option-object-not-reusable", "round %d: `%%a + 1` with the option EnvVariable(a, 5) used before => %s", round, trunc(r.Short(), 100))
+				}
+				if r := fx.Evaluate(env, exA, in, optA, optA); !r.IsError() || !errors.Is(r.Err, fhirpath.ErrExistingConstant) {
+					env.Violatef("C17/evalopts/failing-option-ignored/existing", "round %d: the same variable option twice => %s", round, trunc(r.Short(), 100))
+				}
+				if r := fx.Evaluate(env, exA, in, optCtx); !r.IsError() || !errors.Is(r.Err, fhirpath.ErrExistingConstant) {
+					env.Violatef("C17/evalopts/failing-option-ignored/existing", "round %d: EnvVariable(context, …) => %s", round, trunc(r.Short(), 100))
+				}
+				if r := fx.Evaluate(env, exA, in, optA, optBad); !r.IsError() || !errors.Is(r.Err, fhirpath.ErrUnsupportedType) {
+					env.Violatef("C17/evalopts/failing-option-ignored/unsupported", "round %d: a valid and an unsupported option => %s", round, trunc(r.Short(), 100))
+				}
+				if r := fx.Evaluate(env, exA, in, optBad, optA); !r.IsError() || !errors.Is(r.Err, fhirpath.ErrUnsupportedType) || errors.Is(r.Err, fhirpath.ErrExistingConstant) {
+					env.Violatef("C17/evalopts/wrong-error/unsupported", "round %d: an unsupported and a valid option => %s", round, trunc(r.Short(), 100))
+				}
+			}
 		}
 	}
 	// an evaluation whose options fail leaves nothing behind: the variables it did accept are unknown afterwards,
